@@ -3,6 +3,9 @@ package gosym
 import (
 	"fmt"
 	"go/types"
+	"os"
+	"path/filepath"
+	"runtime"
 
 	"golang.org/x/tools/go/ssa"
 )
@@ -134,12 +137,16 @@ const (
 	aCopy
 )
 
+// (a guarded store keeps its guard in the layer: select(j) = ite(g and idx=j, val, prev[j]),
+// so that writing under a path guard does not read the array)
+
 type ArrT struct {
 	kind  arrKind
 	base  *Term // aBase: array variable
 	prev  *ArrT
 	idx   *Term // aStore
 	val   *Term
+	g     *Term // aStore: guard of the store (nil = unconditional)
 	src   *ArrT // aCopy
 	doff  *Term
 	soff  *Term
@@ -153,6 +160,7 @@ type ArrT struct {
 func (ex *Exec) newObj(kind ObjKind, typ types.Type, site string) *Object {
 	ex.nObj++
 	o := &Object{ID: ex.nObj, Kind: kind, Typ: typ, Site: site}
+	ex.trackObj(o)
 	return o
 }
 
@@ -617,6 +625,16 @@ func (ex *Exec) arrStore(a *ArrT, idx, val *Term) *ArrT {
 	return &ArrT{kind: aStore, prev: a, idx: idx, val: val, depth: a.depth + 1}
 }
 
+func (ex *Exec) arrStoreG(a *ArrT, idx, val, g *Term) *ArrT {
+	if g.IsTrue() {
+		return ex.arrStore(a, idx, val)
+	}
+	if g.IsFalse() {
+		return a
+	}
+	return &ArrT{kind: aStore, prev: a, idx: idx, val: val, g: g, depth: a.depth + 1}
+}
+
 func (ex *Exec) arrCopy(dst *ArrT, doff *Term, src *ArrT, soff, n *Term) *ArrT {
 	if c, ok := n.ConstInt64(); ok && c == 0 {
 		return dst
@@ -655,6 +673,18 @@ func (ex *Exec) isub(a, b *Term) *Term {
 
 func (ex *Exec) arrSelect(a *ArrT, j *Term) *Term {
 	tb := ex.tb
+	ex.nArrSel++
+	if os.Getenv("VERIF_DEBUG") == "2" {
+		if _, file, line, ok := runtime.Caller(1); ok {
+			if ex.selCallers == nil {
+				ex.selCallers = map[string]int{}
+			}
+			ex.selCallers[fmt.Sprintf("%s:%d/%d", filepath.Base(file), line, a.kind)]++
+		}
+	}
+	if a.depth > ex.maxArrDepth {
+		ex.maxArrDepth = a.depth
+	}
 	switch a.kind {
 	case aBase:
 		return tb.Select(a.base, j)
@@ -671,6 +701,9 @@ func (ex *Exec) arrSelect(a *ArrT, j *Term) *Term {
 	switch a.kind {
 	case aStore:
 		c := tb.Eq(a.idx, j)
+		if a.g != nil {
+			c = tb.And(a.g, c)
+		}
 		if c.IsTrue() {
 			r = a.val
 		} else {
